@@ -80,7 +80,7 @@ func one(t *tape.Tape) (int, string) {
 	for i := range plans {
 		for k := 0; k < 2+t.Draw(fmt.Sprintf("n%d", i), 6); k++ {
 			l := fmt.Sprintf("t%d.%d", i, k)
-			o := op{kind: t.Draw(l+".k", 7), x: t.Draw(l+".x", 2), ref: all[t.Draw(l+".r", len(all))]}
+			o := op{kind: t.Draw(l+".k", 8), x: t.Draw(l+".x", 2), ref: all[t.Draw(l+".r", len(all))]}
 			if o.kind == 5 {
 				o.ref = d.Streams[t.Draw(l+".s", len(d.Streams))]
 			}
@@ -162,6 +162,17 @@ func one(t *tape.Tape) (int, string) {
 					rc.Close()
 					if err != nil || !bytes.Equal(data, d.Bodies[o.ref]) {
 						note(fmt.Sprintf("stream %s: %d bytes instead of %d (err %v)", o.ref, len(data), len(d.Bodies[o.ref]), err))
+					}
+				case 6:
+					if d.BadStream != 0 {
+						if obj, err := r.Get(d.BadStream, true); err == nil {
+							if stm, ok := obj.(*pdf.Stream); ok {
+								if rc, err := pdf.DecodeStream(r, nil, stm); err == nil {
+									io.ReadAll(rc)
+									rc.Close()
+								}
+							}
+						}
 					}
 				default:
 					cmap.Predefined("Identity-H")
